@@ -97,7 +97,7 @@ def cases(ctx):
                     yield {"kind": "mov", "c": c, "dir": direction, "debug": debug}
             # electron -> carbon with operand registers the transpiler cannot resolve from this subroutine's text: Q registers
             # set by an earlier subroutine of the application, and R registers (what the SDK's NV multi-pair keep loop uses)
-            for how in ("carried", "rregs"):
+            for how in ("carried", "rregs", "rregs-collide"):
                 if mine():
                     yield {"kind": "mov", "c": c, "dir": "e2c", "debug": debug, "operands": how}
     for g in ("cnot", "cphase"):
@@ -179,6 +179,10 @@ def _run(ctx, case):
         got = b.run(sub, b.choi())
         ctx.count("two_qubit_unitaries")
         _cmp(ctx, case, got, ideal(b, [(rq.STATIC2[g], [a, c])]), b, f"{g} control {a} target {c}")
+        from vf.checks.c08 import electron_control
+        d = electron_control(ctx, b.ex)
+        if d:
+            ctx.fail(case, f"{g} control {a} target {c}: {d}")
     elif kind == "scratch":
         # two carbon-carbon gates with a write to the register the first one borrowed in between
         g = case["gate"]
@@ -201,6 +205,10 @@ def _run(ctx, case):
             from vf.harness import controller as hc
             hc.drive(b.ex.execute_subroutine(hc_seed), b.ex, None)
             sub = transpiled([["mov", [["Q", 0], ["Q", 1]]]], case["debug"])
+        elif how == "rregs-collide":
+            # ... while Q registers with the SAME indices hold other qubit ids (a register is its bank and its index)
+            sub = transpiled([["set", [["Q", 1], tgt]], ["set", [["Q", 2], src]], ["set", [["R", 1], src]], ["set", [["R", 2], tgt]],
+                              ["mov", [["R", 1], ["R", 2]]]], case["debug"])
         elif how == "rregs":
             sub = transpiled([["set", [["R", 1], src]], ["set", [["R", 2], tgt]], ["mov", [["R", 1], ["R", 2]]]], case["debug"])
         else:
@@ -226,6 +234,12 @@ def _run(ctx, case):
         if not rq.eq_up_to_phase(got.vector(order), want.vector(order), 1e-9):
             ctx.fail(case, f"mov {src}->{tgt}: the target does not carry the source's state / a bystander changed "
                            f"(fidelity {rq.fidelity(got.vector(order), want.vector(order)):.6f})")
+            return
+        # the NV two-qubit operation is an electron-controlled rotation: the emitted sequence must be executable as such
+        from vf.checks.c08 import electron_control
+        d = electron_control(ctx, b.ex)
+        if d:
+            ctx.fail(case, f"mov {src}->{tgt} ({how or 'Q registers set in the subroutine'}): {d}")
     elif kind == "rot":
         axis, d, q = case["axis"], case["d"], case["q"]
         hw = case["mode"] == "hw"
